@@ -23,6 +23,7 @@ it is the answer to the very first library call of an interpreter.
 from __future__ import annotations
 
 import atexit
+import copy
 import hashlib
 import itertools
 import json
@@ -237,7 +238,8 @@ def battery():
     for c in SCALE_CLASSES:
         if hasattr(_lib(CORE + "scales"), c):
             b += [M(c, ["C"], "ascending"), M(c, ["C"], "descending")]
-    b += [M("Diatonic", ["C", T(3, 7)], "ascending"), M("Major", ["G", 2], "ascending"), M("NaturalMinor", ["F#"], "descending"),
+    b += [M("Diatonic", ["C", T(3, 7)], "ascending"), M("Diatonic", ["C", T(3, 7), 2], "ascending"), M("Ionian", ["C", 2], "ascending"),
+          M("Dorian", ["D"], "descending"), M("Major", ["G", 2], "ascending"), M("NaturalMinor", ["F#"], "descending"),
           M("Chromatic", ["f"], "descending"), M("Major", ["C"], "degree", 3), M("Major", ["C"], "degree", 3, "d"),
           M("Major", ["C"], "__len__"), M("Major", ["c"], "ascending"),
           Q("scales", "determine", ["A", "Bb", "E", "F#", "G"]), Q("scales", "determine", ["C", "E", "G"]),
@@ -289,6 +291,10 @@ def memo_actions(keys, with_fft):
         qs += [M("Major", [kk], "ascending"), M("NaturalMinor", [kk], "descending"), M("Chromatic", [k], "ascending"),
                M("HarmonicMinor", [kk], "ascending"), M("Major", [kk, 2], "descending")]
     qs += [Q("scales", "determine", ["C", "E", "G", "B"])]
+    # the same scale over one and over two octaves, and the classes derived from Diatonic on the same tonic
+    qs += [M("Diatonic", ["C", T(3, 7), 2], "ascending"), M("Diatonic", ["C", T(3, 7)], "ascending"), M("Ionian", ["C"], "ascending"),
+           M("Ionian", ["C", 2], "descending"), M("Dorian", ["D", 2], "ascending"), M("Dorian", ["D"], "ascending"),
+           M("Diatonic", ["C", T(2, 6)], "ascending")]
     qs += [Q("intervals", "third", "E", k0), Q("intervals", "interval", k0, "D", 4), Q("intervals", "unison", keys[1].upper()[0]),
            Q("intervals", "major_third", "E"), Q("intervals", "minor_seventh", "Bb"), Q("intervals", "invert", ["C", "E", "G"]),
            Q("intervals", "determine", "C", "G#"), Q("intervals", "from_shorthand", "A", "b3"), Q("intervals", "measure", "C", "E"),
@@ -1070,13 +1076,51 @@ def class_ops(owner_name):
         for i, (p, fac) in enumerate(given):
             for j in range(1, len(fac())):
                 ops.append([cname, [[q, (j if q == p else 0)] for q, _ in given]])
+    ops.append(["@fill", []])
     return ops
+
+
+def fill_public_lists(owner_name, target):
+    """The caller's side of a public list the object was created with: `midifile.tracks.append(t)`, `nc.notes += [...]`.
+    Every public list attribute that carries the name of a constructor parameter (the content the instance is created
+    with; class-level constant tables such as MidiInstrument.names are not touched) is extended in place -- with copies
+    of what it holds, or, when it is empty, with elements of the kind the constructor takes for that parameter."""
+    S = engine.S
+    init = catalogue().get((owner_name, "__init__"))
+    if init is None:
+        return
+    for p, fac, kind in init["params"]:
+        if p.startswith("_") or kind != "given":
+            continue
+        try:
+            v = getattr(target, p)
+        except Exception:                                               # noqa
+            continue
+        if not isinstance(v, list):
+            continue
+        extra = None
+        if v:
+            extra = [copy.copy(v[-1])]
+        else:
+            for alt in fac():
+                if isinstance(alt, list) and alt:
+                    extra = list(alt)
+                    break
+        if extra is None:
+            S.count("public_lists_without_an_element_to_add")
+            continue
+        v.extend(extra)
+        S.count("public_lists_extended_in_place")
 
 
 def apply_ops(owner_name, target, ops):
     S = engine.S
     eff = []
     for cname, assignment in ops:
+        if cname == "@fill":
+            fill_public_lists(owner_name, target)
+            eff.append("ok")
+            continue
         entry = catalogue()[(owner_name, cname)]
         kwargs = build_kwargs(entry, assignment)
         try:
